@@ -1,3 +1,173 @@
-(* C14 — placeholder while the proofs are being written. *)
+(* C14 — Concurrent lookups behave like sequential ones and fetch each record once.
+   Property theorems only; each is closed by [exact] of a lemma of Client/ConcProofs*.v.
+
+   The model (Client/Conc.v) is an interleaving labelled transition system: any number of
+   lookups (threads) on any number of clients that share one configuration file and one
+   cache, against an honest server whose signed heads form the finite list [chain]
+   (a head is (size, hash); [None] is the empty configuration / the initial memory head).
+   One step = one mutex-protected section or one ClientOps call of sumdb/client.go.
+   [run sched s] executes a schedule (a list of thread ids and server-growth actions; a
+   disabled action stutters), [trace sched s] is the list of ClientOps calls it performs.
+   All theorems are for ALL schedules, by induction over the schedule.
+
+   Abbreviations used below (definitions in Client/Conc.v, Client/ConcProofs*.v):
+     hin chain h      := match h with None => True | Some x => In x chain end
+     size h           := match h with None => 0 | Some x => fst x end
+     mem_of s ci      := memory head (c.latest) of client ci in s
+     wf_init ...      := cur < length chain, cfg and the cached records' heads are heads of
+                         the chain, sizes are >= 0, every lookup names an existing client
+     nrc/nrr ci k tr  := number of ReadCache / ReadRemote calls for key k by client ci in tr
+     covers n seg     := every thread id < n occurs in the schedule segment seg
+     unfinished s     := some lookup has not returned in s
+   What the LTS cannot express — data races, the atomicity of sync.Mutex / sync.Map /
+   atomic — is assumed (each protected section is one step); the tie to the real client is
+   the trace replay of the correspondence run (C14_replay_accepts_only_runs). *)
 From Verif.Base Require Import Bytes.
-From Verif.Client Require Import Conc.
+From Verif.Module Require Import Match.
+From Verif.Client Require Import Conc ConcProofs ConcProofsTrace ConcProofsTerm ConcProofsReplay ConcProofsMain.
+
+(* every head in memory, in a thread's local copies, in the configuration file or in the
+   cache is a head of the honest chain *)
+Theorem C14_all_schedules_safe :
+  forall chain cur cfg cache nos lks, wf_init chain cur cfg cache nos lks ->
+  forall sched,
+    let s := run sched (init_state chain cur cfg cache nos lks) in
+    hin chain (s_cfg s) /\
+    (forall ci c, nth_error (s_clients s) ci = Some c -> hin chain (c_mem c)) /\
+    (forall t th, nth_error (s_threads s) t = Some th ->
+       hin chain (t_msg th) /\ hin chain (t_lat th) /\ hin chain (t_data th) /\ hin chain (t_new th)) /\
+    (forall k h, lookup k (s_cache s) = Some h -> In h chain).
+Proof. exact all_schedules_heads_honest. Qed.
+Print Assumptions C14_all_schedules_safe.
+
+(* the full invariant (ownership of initOnce and of the parCache entries, the size relations
+   between local copies, memory and configuration, results) *)
+Theorem C14_invariant :
+  forall chain cur cfg cache nos lks, wf_init chain cur cfg cache nos lks ->
+  forall sched, Inv (run sched (init_state chain cur cfg cache nos lks)).
+Proof. exact all_schedules_safe. Qed.
+Print Assumptions C14_invariant.
+
+Theorem C14_latest_never_regresses :
+  forall chain cur cfg cache nos lks, wf_init chain cur cfg cache nos lks ->
+  forall sched1 sched2,
+    let s0 := init_state chain cur cfg cache nos lks in
+    size (s_cfg (run sched1 s0)) <= size (s_cfg (run (sched1 ++ sched2) s0)) /\
+    forall ci, size (mem_of (run sched1 s0) ci) <= size (mem_of (run (sched1 ++ sched2) s0) ci).
+Proof. exact latest_never_regresses. Qed.
+Print Assumptions C14_latest_never_regresses.
+
+Theorem C14_fetch_once :
+  forall chain cur cfg cache nos lks, wf_init chain cur cfg cache nos lks ->
+  forall sched ci k,
+    (nrc ci k (trace sched (init_state chain cur cfg cache nos lks)) <= 1)%nat /\
+    (nrr ci k (trace sched (init_state chain cur cfg cache nos lks)) <= 1)%nat.
+Proof. exact fetch_once. Qed.
+Print Assumptions C14_fetch_once.
+
+Theorem C14_gonosumdb_no_ops :
+  forall chain cur cfg cache nos lks, wf_init chain cur cfg cache nos lks ->
+  forall t ci path key globs,
+    nth_error lks t = Some (ci, path, key) -> nth_error nos ci = Some globs ->
+    match_prefix_patterns globs path = true ->
+    forall sched e, In e (trace sched (init_state chain cur cfg cache nos lks)) -> fst e <> t.
+Proof. exact gonosumdb_no_ops. Qed.
+Print Assumptions C14_gonosumdb_no_ops.
+
+(* a lookup that has returned returned ErrGONOSUMDB when its path matches, and otherwise the
+   record of its own key, never an error *)
+Theorem C14_results_sequential :
+  forall chain cur cfg cache nos lks, wf_init chain cur cfg cache nos lks ->
+  forall sched t ci path key globs th,
+    nth_error lks t = Some (ci, path, key) -> nth_error nos ci = Some globs ->
+    nth_error (s_threads (run sched (init_state chain cur cfg cache nos lks))) t = Some th ->
+    t_pc th = PDone ->
+    t_res th = if match_prefix_patterns globs path then RSkip else ROk key.
+Proof. exact results_sequential. Qed.
+Print Assumptions C14_results_sequential.
+
+(* when all lookups have returned, no client's memory head is ahead of the configuration
+   file, and every head any ClientOps call served to a client is at most that client's
+   memory head (read_of gives the client and size of the head a call returned) *)
+Theorem C14_ends_at_max :
+  forall chain cur cfg cache nos lks, wf_init chain cur cfg cache nos lks ->
+  forall sched,
+    let s := run sched (init_state chain cur cfg cache nos lks) in
+    quiescent s ->
+    (forall ci c, nth_error (s_clients s) ci = Some c -> size (c_mem c) <= size (s_cfg s)) /\
+    (forall e ci z, In e (trace sched (init_state chain cur cfg cache nos lks)) ->
+       read_of (snd e) = Some (ci, z) -> z <= size (mem_of s ci)).
+Proof. exact ends_at_max. Qed.
+Print Assumptions C14_ends_at_max.
+
+(* termination: the measure  pot * K + sum of thread ranks + (chain left to grow)  with
+   pot = (maxN - size cfg) + sum over clients (maxN - size mem)  strictly decreases on every
+   effective action (ConcProofsTerm.step_measure, grow_measure); some thread is enabled
+   while a lookup is unfinished; hence every schedule made of enough segments that give
+   every thread a turn — whatever else happens in between, growth of the server included —
+   ends with all lookups returned, and NO schedule has more than [measure] effective actions *)
+Theorem C14_terminates :
+  forall chain cur cfg cache nos lks, wf_init chain cur cfg cache nos lks ->
+  forall segs,
+    (forall seg, In seg segs -> covers (length lks) seg) ->
+    (measure (init_state chain cur cfg cache nos lks) <= length segs)%nat ->
+    ~ unfinished (run (concat segs) (init_state chain cur cfg cache nos lks)).
+Proof. exact terminates. Qed.
+Print Assumptions C14_terminates.
+
+Theorem C14_effective_steps_bound :
+  forall chain cur cfg cache nos lks, wf_init chain cur cfg cache nos lks ->
+  forall sched,
+    (effective_count sched (init_state chain cur cfg cache nos lks)
+     <= measure (init_state chain cur cfg cache nos lks))%nat.
+Proof. exact effective_steps_bound. Qed.
+Print Assumptions C14_effective_steps_bound.
+
+Theorem C14_no_deadlock :
+  forall chain cur cfg cache nos lks, wf_init chain cur cfg cache nos lks ->
+  forall sched,
+    unfinished (run sched (init_state chain cur cfg cache nos lks)) ->
+    exists t, (t < length lks)%nat /\
+              step (run sched (init_state chain cur cfg cache nos lks)) t <> None.
+Proof. exact no_deadlock. Qed.
+Print Assumptions C14_no_deadlock.
+
+(* the tie: a trace accepted by the replay of the correspondence run ends in a state of a run
+   of the LTS, so all of the above holds for every observed execution of the real client *)
+Theorem C14_replay_accepts_only_runs :
+  forall chain cur cfg cache nos lks, wf_init chain cur cfg cache nos lks ->
+  forall tr n s',
+    replay O tr (init_state chain cur cfg cache nos lks) = inl s' ->
+    exists sched, finish n s' = run sched (init_state chain cur cfg cache nos lks) /\
+                  Inv (finish n s').
+Proof. exact replay_accepts_only_runs. Qed.
+Print Assumptions C14_replay_accepts_only_runs.
+
+(* ---- non-vacuity: a concrete world with two clients, four lookups (one skipped, two on the
+   same key), a growing server; a round-robin schedule finishes all of them ------------------ *)
+Definition ex_chain : list head := [(1, B "a"); (2, B "b"); (3, B "c")].
+Definition ex_lks : list (nat * str * nat) :=
+  [(O, B "rsc.io/quote", O); (O, B "rsc.io/quote", O); (1%nat, B "rsc.io/quote", O);
+   (1%nat, B "corp.example.com/x", 1%nat)].
+Definition ex_nos : list str := [B ""; B "corp.example.com"].
+Definition ex_init : state := init_state ex_chain 0 (Some (1, B "a")) [] ex_nos ex_lks.
+Definition ex_round : list act := [AThread 0; AThread 1; AGrow; AThread 2; AThread 3].
+Definition ex_sched : list act := concat (repeat ex_round 40).
+
+Example C14_example_wf : wf_init ex_chain 0 (Some (1, B "a")) [] ex_nos ex_lks.
+Proof.
+  constructor; cbn.
+  - lia.
+  - auto.
+  - discriminate.
+  - intros x [<-|[<-|[<-|[<-|[]]]]]; cbn; lia.
+  - intros h [<-|[<-|[<-|[]]]]; cbn; lia.
+Qed.
+
+Example C14_example_finishes :
+  all_done (run ex_sched ex_init) = true /\
+  List.map t_res (s_threads (run ex_sched ex_init)) = [ROk 0; ROk 0; ROk 0; RSkip] /\
+  s_cfg (run ex_sched ex_init) = Some (3, B "c") /\
+  nrc 0 0 (trace ex_sched ex_init) = 1%nat /\ nrr 0 0 (trace ex_sched ex_init) = 1%nat /\
+  nrc 1 0 (trace ex_sched ex_init) = 1%nat /\ nrr 1 0 (trace ex_sched ex_init) = 1%nat.
+Proof. vm_compute. repeat split; reflexivity. Qed.
